@@ -647,6 +647,10 @@ def c08(tier, seed):
     ded = seq_cases(prop, "tagged-delete-remote", ["rel", "sec"], 1, 100, seed, label_prefix="tagged-delete-remote-", start_index=90000, timeout=300)
     for c in ded: c.meta["dedicated"] = "tagged-delete-remote"; c.meta["scenario"] = "tagged-delete-remote"
     cases += ded
+    # exact scenario for the first clause ("becomes reusable by the owning thread"), also for pages adopted from a terminated thread (added for seeded change C08-r7-2)
+    reuse = seq_cases(prop, "reuse-after-remote-free", ["rel", "dbg", "sec"], tier_n(tier, 4, 40), 100, seed, label_prefix="reuse-", start_index=95000, timeout=300)
+    for c in reuse: c.meta["scenario"] = "reuse-after-remote-free"
+    cases += reuse
     v = Verdict(prop)
     for c in core.run_cases(cases): v.add(c)
     # tiny programs with enumerated preemptions (see C02): at their end every block was freed and the owner's heap must count no used block
@@ -660,8 +664,14 @@ def c08(tier, seed):
                      "freeing and collecting; at the end every block has been freed by whichever thread, the owner calls mi_heap_collect(heap,true) once and the heap walk must report no area; the per-round "
                      "area counts must not keep growing (max of 2nd half > 2x max of 1st quarter + 16 AND positive slope = violation); same schedulers as C02; plus the tiny programs of C02 with enumerated preemptions "
                      "(one or two preemptions of a freeing thread at every switch point and every window up to 3 points, samples of owner preemptions and spurious CAS failures), whose owner heap must count "
-                     "no used block after everything was freed and force-collected; non-trivial = >=10 remote frees (tiny: >=1); distinct = schedule hash",
-                     lambda r, c: r.get("mt", {}).get("remote_frees", 0) >= (1 if c.meta.get("scenario") == "tiny" else 10), dict(tiny_cov(tiny), area_series_samples=series))
+                     "no used block after everything was freed and force-collected; plus the exact 'reuse' scenario (single owner, helper threads joined, so schedule-independent): 12 rounds of "
+                     "{N blocks of one size class fill pages of the owner's heap -- allocated by the owner, or by a thread that terminates and adopted by the owner through a forced collect or reclaim-on-free --, "
+                     "64 more allocations move the full pages to the full queue, another thread frees every 2nd / every 3rd / a random half / all but one in 16, the owner collects without force and allocates as "
+                     "many blocks of that size again}: the heap walk must not report more than one area more than before the frees; "
+                     "non-trivial = >=10 remote frees (tiny: >=1; reuse: >= 1 round judged); distinct = schedule hash",
+                     lambda r, c: (r.get("reuse", {}).get("rounds", 0) >= 1) if c.meta.get("scenario") == "reuse-after-remote-free" else r.get("mt", {}).get("remote_frees", 0) >= (1 if c.meta.get("scenario") == "tiny" else 10),
+                     dict(tiny_cov(tiny), area_series_samples=series, reuse_scenario={"cases": len(reuse), "rounds": core.sum_field(reuse, "reuse", "rounds"), "rounds_with_adopted_pages": core.sum_field(reuse, "reuse", "adoption_rounds"),
+                                                                                         "blocks_freed_remotely_and_reallocated": core.sum_field(reuse, "reuse", "blocks_freed_remotely_and_reallocated")}))
 
 @check("C09")
 def c09(tier, seed):
